@@ -1,5 +1,6 @@
-use vkit::Check;
+mod c30;
+mod util;
+use vkit::{Check, Level};
 fn main() {
-    let checks: &[Check] = &[];
-    vkit::main(checks);
+    vkit::main(&[Check { id: "C30", level: Level::Exploration, run: c30::run }]);
 }
